@@ -818,7 +818,7 @@ fn absurd_family(out: &mut Vec<Fail>) -> usize {
 }
 
 // ------------------------------------------------------------------------------------------------ backend (bounded stand-in, emit.rs)
-const EMIT_PROPS: &[&str] = &["C01", "C02", "C04", "C05", "C06", "C07", "C08", "C10", "C11", "C12", "C14", "C15", "C16", "C17", "C19", "C20"];
+const EMIT_PROPS: &[&str] = &["C01", "C02", "C03", "C04", "C05", "C06", "C07", "C08", "C10", "C11", "C12", "C14", "C15", "C16", "C17", "C19", "C20"];
 fn emit_fail(out: &mut Vec<Fail>, prop: &str, input: String, ptr: usize, x: &emit::Viol) {
     if x.props.contains(&prop) {
         out.push(Fail { family: "emit", input, ptr, expected: "the emitted file carries the resolved item as the property says".into(), actual: x.what.clone() });
@@ -833,18 +833,34 @@ fn emit_family(prop: &str, seed: u64, quick: bool, out: &mut Vec<Fail>) -> usize
     let per = if quick { 150 } else { 2500 };
     for ptr in [4usize, 8] {
         for i in 0..per {
-            let mods = gen::program(seed, i as u64, ptr);
+            let (mods, expect) = gen::program_with_expectation(seed, i as u64, ptr);
             n += 1;
             let mods_ref: Vec<(&str, String)> = mods.iter().map(|(k, s)| (*k, s.clone())).collect();
             let o = build_modules(&mods_ref, ptr);
             GEN_STATS.with(|g| { let (a, t) = g.get(); g.set((a + matches!(o, Outcome::Ok(_)) as usize, t + 1)); });
             match o {
                 Outcome::Ok(st) => {
+                    // the generator laid every item out itself (explicit padding, explicit alignment): the resolved size and
+                    // alignment must be the ones it computed (C02; C11 because the sizes of referenced types go in)
+                    if ["C02", "C11", "C03"].contains(&prop) {
+                        for (path, size, align) in &expect.items {
+                            let d = st.type_registry().get(&ItemPath::from(path.as_str()));
+                            let got = d.and_then(|d| Some((d.size()? as u128, d.alignment()? as u128)));
+                            if got != Some((*size, *align)) {
+                                out.push(Fail { family: "gen", input: join_sources(&mods_ref), ptr, expected: format!("`{path}` resolved with size {size} and alignment {align}"), actual: format!("{got:?}") });
+                            }
+                        }
+                    }
                     let e = emit_checked(ptr, &st, &mods_ref, &dir);
                     for x in &e.viols { emit_fail(out, prop, join_sources(&mods_ref), ptr, x); }
                 }
                 Outcome::Panic(m) => { if prop == "C12" { out.push(Fail { family: "gen", input: join_sources(&mods_ref), ptr, expected: "Ok or Err".into(), actual: format!("PANIC({m})") }); } }
-                Outcome::Err(_) => {}
+                Outcome::Err(m) => {
+                    // a program of this generator is realisable, every name is defined and nothing embeds itself by value
+                    if ["C03", "C10", "C11", "C06"].contains(&prop) {
+                        out.push(Fail { family: "gen", input: join_sources(&mods_ref), ptr, expected: "accepted (laid out by the generator with explicit padding and alignment; all names defined; acyclic)".into(), actual: format!("ERR({m})") });
+                    }
+                }
             }
             if out.len() > 30 { break; }
         }
